@@ -11,7 +11,7 @@ package db19
 //   trigger-calls-differ:<op>        the calls made do not add up to the row changes of the table
 //   trigger-while-disabled           a disabled (or undefined) trigger was called
 //   trigger-wrong-tran               the trigger did not get the changing transaction
-//   trigger-exception-committed:<op> the trigger threw, the caller caught it and Complete() succeeded
+//   trigger-exception-committed      the trigger threw, the caller caught it and Complete() succeeded
 
 import (
 	"fmt"
@@ -163,6 +163,9 @@ func (g *vTrig) run(hi int) {
 		for k := 0; k < nops && alive && !h.failed; k++ {
 			before := h.snapshot(ut)
 			op := h.genOp(before)
+			if op.kind == "upd" && vEmpty(op.old, h.sch.tables[op.t].idxs[0].cols) && !vEmpty(op.new, h.sch.tables[op.t].idxs[0].cols) {
+				h.emptyKeyUpd = true
+			}
 			hist += " ; " + op.line()
 			g.log, g.threw, g.wrongTr, g.whileDis = nil, false, false, false
 			msg := h.apply(ut, op)
@@ -204,7 +207,7 @@ func (g *vTrig) run(hi int) {
 			res := ut.Complete()
 			if res == "" {
 				tr.Q("commit", "ok")
-				h.fail("trigger-exception-committed:"+threwOp, "Trigger threw, caller caught it, Complete() succeeded: "+hist+" ; commit")
+				h.fail("trigger-exception-committed", "Trigger threw in "+threwOp+", caller caught it, Complete() succeeded: "+hist+" ; commit")
 			} else {
 				tr.Q("commit", "!aborted")
 			}
